@@ -9,7 +9,7 @@
 From Emmet Require Import lib.Base model.MarkupTokenizer model.MarkupParser model.MarkupConvert model.MarkupResolve
      model.MarkupExpand gen.GenMarkupSnippets
      proofs.MarkupTokenizerProofs proofs.SafeTokenizer proofs.SafeParser proofs.SafeConvert proofs.SafeResolve
-     proofs.SafeExpand.
+     proofs.SafeExpand proofs.SafeBridge proofs.SafeBridgeTok proofs.SafeFormat proofs.SafeFull.
 
 (* ---- stage 1: tokenizer, for ALL strings: tokens that tile the input, or the scanner error inside the input *)
 Theorem C07_tokenize_safe : forall s,
@@ -80,21 +80,52 @@ Proof. exact table_good_app. Qed.
 Print Assumptions C07_user_table_wf.
 
 (* ---- stage 5: transform pass and formatters: total by construction (`transform_list`,
-   `stringify_markup` return plain values, not `res`; no fuel).  Nothing to prove. *)
+   `stringify_markup` return plain values, not `res`; no fuel): see proofs/SafeFormat.v. *)
 
-(* ---- composition.  FULL STATEMENT (DESIGN §5 C07):
-       expand_safe : forall x s, wf_cfg (xc_m x) -> safe_outcome (length s) (expand_markup_str x s).
-   Proved below with ONE extra hypothesis, [abbr_wf jsx s]: "no tree the parser builds from the tokens of [s]
-   carries a Repeater token inside a name or value".  It links the tokenizer's context counters to the regions
-   the parser turns into values (the tokenizer emits Repeater only outside brackets/quotes; the parser makes
-   values only from bracketed/quoted regions) and is not proved for all strings yet; it is a decidable
-   per-input condition (SafeResolve.abbr_good) and part of what the correspondence run checks on every
-   generated input (an Internal model outcome is a disagreement). *)
-Theorem C07_expand_safe_partial : forall x s,
-  wf_cfg (xc_m x) -> abbr_wf (mc_jsx (xc_m x)) s ->
-  safe_outcome (length s) (expand_markup_str x s).
-Proof. exact expand_safe_under_wf. Qed.
-Print Assumptions C07_expand_safe_partial.
+(* ---- the link between tokenizer and converter.  A token list is read by a three-state automaton over token
+   kinds (SafeBridge.v: plain / inside quotes / inside text braces); [W MPlain l]: inside quotes and braces there are
+   only literal-like tokens and the matching closer -- in particular no Repeater token --, and no operator outside
+   the table anywhere. *)
+(* (a) tokenizer, for ALL strings: its output is accepted by the automaton *)
+Theorem C07_tokenizer_output_wellformed : forall s l, tokenize s = TOk l -> W MPlain l = true.
+Proof. exact tokenize_W. Qed.
+Print Assumptions C07_tokenizer_output_wellformed.
+
+(* (b) parser, for ALL token lists accepted by the automaton: every tree it returns satisfies the hypothesis of
+   convert_safe *)
+Theorem C07_parser_output_convertible : forall jsx toks root,
+  W MPlain toks = true -> parse jsx toks = POk root -> forallb tnode_ok root = true.
+Proof. exact parse_tree_ok. Qed.
+Print Assumptions C07_parser_output_convertible.
+
+(* ---- composition, FULL STATEMENT for the markup model (DESIGN §5 C07):
+   for ALL abbreviations and ALL configurations with a well-formed snippet table (all markup syntaxes, wrap text
+   str/list/none, variables, context, comments, JSX, every output option, every repeat limit):
+   expand returns a value, or one of the two parse errors with 0 <= position <= length of the abbreviation (or no
+   position); never Internal, never OutOfFuel.
+   Not in the model (hence not in this theorem; implementation oracle only): bem.enabled, lorem text generation,
+   markup.href rewriting, user callbacks other than the identity; CPython's recursion limit (known finding). *)
+Theorem C07_expand_safe : forall x s,
+  wf_cfg (xc_m x) -> safe_outcome (length s) (expand_markup_str x s).
+Proof. exact expand_safe. Qed.
+Print Assumptions C07_expand_safe.
+
+(* ---- ANY snippet table, malformed user snippets included: still never Internal / OutOfFuel; a parse error
+   carries a position inside the abbreviation OR inside the text of one of the snippet values (the library parses a
+   snippet value as an abbreviation of its own and reports the position in it: this is what the real code does for
+   a malformed USER snippet, e.g. snippets {bad: 'aaaaaaaaaaaa[${'} and abbreviation 'bad' -> ScannerException pos 15) *)
+Theorem C07_expand_safe_any_table : forall x s,
+  match expand_markup_str x s with
+  | Ok _ => True
+  | ParseErr k None => k = EK_Token
+  | ParseErr k (Some p) =>
+      (k = EK_Scanner \/ k = EK_Token) /\
+      exists v, In v (s :: map snd (mc_snippets (xc_m x))) /\ (0 <= p <= Z.of_nat (length v))%Z
+  | Internal _ => False
+  | OutOfFuel => False
+  end.
+Proof. exact expand_safe_general. Qed.
+Print Assumptions C07_expand_safe_any_table.
 
 (* non-vacuity: a [ b = and a double quote: tokenizes, and the parser reports the unclosed quote at offset 4;
    and ul>li*2 expands to a value under the built-in table *)
@@ -106,3 +137,10 @@ Example C07_markup_parse_nonvacuous :
   let cfg := mkMConfig [104;116;109;108]%N markup_snippets [] WNone None None false None [] false false in
   wf_cfg cfg /\ exists r, markup_parse cfg [117;108;62;108;105;42;50]%N = Ok r /\ length r = 1.
 Proof. split; [exact markup_snippets_good|]. eexists. split; vm_compute; reflexivity. Qed.
+
+(* a malformed user snippet: the scanner error points into the snippet text (offset 15 > length of "bad") *)
+Example C07_user_snippet_error_nonvacuous :
+  let cfg := mkMConfig [104;116;109;108]%N
+               [([98;97;100], [97;97;97;97;97;97;97;97;97;97;97;97;91;36;123])]%N [] WNone None None false None [] false false in
+  markup_parse cfg [98;97;100]%N = ParseErr EK_Scanner (Some 15%Z).
+Proof. vm_compute. reflexivity. Qed.
